@@ -352,6 +352,24 @@ func c08One(env *fw.Env, i int64) {
 			break
 		}
 	}
+	// frames pipelined BEHIND a Separate.req that ended the session (same TCP write): the connection is over, nothing is
+	// prescribed for them — no answer, no delivery. They are not fed to the model.
+	trailing := 0
+	if m.ended && m.endWhy == "Separate while selected" && r.IntN(3) != 0 {
+		cs.Coalesce = true
+		for k, nt := 0, 1+r.IntN(4); k < nt; k++ {
+			switch r.IntN(3) {
+			case 0:
+				sent = append(sent, peer.Data(1, 1, true, c08Session, 0x7A110000|uint32(k), []byte{0x41, 0x01, 't'}))
+			case 1:
+				sent = append(sent, peer.LinktestReq(0x7A120000|uint32(k)))
+			default:
+				sent = append(sent, peer.SelectReq(c08Session, 0x7A130000|uint32(k)))
+			}
+			trailing++
+		}
+		env.Event("frames_pipelined_behind_a_separate", int64(trailing))
+	}
 	nontrivial := false
 	for _, f := range sent {
 		cs.Frames = append(cs.Frames, f.String())
@@ -468,6 +486,15 @@ func c08One(env *fw.Env, i int64) {
 			env.Violate("deliveries-differ", fmt.Sprintf("handler deliveries (system bytes) %08x, model expects %08x", gotD, m.deliver), cs)
 		}
 		env.Event("deliveries_checked", int64(len(m.deliver)))
+	} else if trailing > 0 {
+		time.Sleep(20 * time.Millisecond)
+		var gotD []uint32
+		for _, d := range dl.snapshot() {
+			gotD = append(gotD, d.Sys)
+		}
+		if fmt.Sprint(gotD) != fmt.Sprint(m.deliver) {
+			env.Violate("delivered-after-separate", fmt.Sprintf("handler deliveries (system bytes) %08x, model expects %08x: data pipelined behind the Separate.req that ended the session was delivered", gotD, m.deliver), cs)
+		}
 	}
 	for _, f := range sent {
 		switch f.SType {
